@@ -21,7 +21,7 @@ SIGMA = ['a', 'A', '.', '/', ':', '%', '2', 'e', 'E', '@', '[', ']', '?', '#', '
          'x', '０', 'ß', 'X']
 UNI = ['\ud800', '\udfff', '\x00', '\x1f', '\x85', '\u2028', '\uffff', '\U0010ffff', '１', '\u0301',
        'a', '.', ':', '/']
-SOUP = ['[', ']', ':', '@']
+SOUP = ['[', ']', ':', '@', '%', '1']
 
 
 def product_urls(reduced=False):
